@@ -37,6 +37,7 @@ type Dec struct {
 	St  string `json:"st"`
 	Len int    `json:"len"`
 	Ok  bool   `json:"ok"`
+	Hdr bool   `json:"hdr"` // gzip: the header fields read back equal the ones written (true for other kinds)
 }
 
 // GzHeader is the part of a gzip header a user can set.
@@ -62,10 +63,7 @@ func parseGzipHeader(b []byte) (n int, complete, valid bool, h GzHeader, latin1O
 	if len(b) < 10 {
 		return 0, false, true, h, true
 	}
-	flg := b[3]
-	if flg&0xe0 != 0 {
-		return 0, false, false, h, true
-	}
+	flg := b[3] // reserved FLG bits are ignored, as compress/gzip does: the payload and its checksum are unaffected
 	h.ModTime = int64(binary.LittleEndian.Uint32(b[4:8]))
 	h.OS = b[9]
 	p := 10
@@ -246,10 +244,11 @@ func readAllGuard(r io.Reader, limit int) (out []byte, err error, panicked strin
 }
 
 // projectLib decodes the emitted bytes with a library decoder.
-func projectLib(impl, kind string, emitted, want, dict []byte) Dec {
+func projectLib(impl, kind string, emitted, want, dict []byte, hdr *GzHeader) Dec {
 	src := bytes.NewReader(emitted)
 	var r io.Reader
 	var err error
+	var got *GzHeader
 	func() {
 		defer func() {
 			if x := recover(); x != nil {
@@ -264,7 +263,16 @@ func projectLib(impl, kind string, emitted, want, dict []byte) Dec {
 				r = stdflate.NewReader(src)
 			}
 		case impl == "std" && kind == "gzip":
-			r, err = stdgzip.NewReader(src)
+			var zr *stdgzip.Reader
+			zr, err = stdgzip.NewReader(src)
+			if err == nil {
+				r = zr
+				mt := int64(0)
+				if !zr.ModTime.IsZero() {
+					mt = zr.ModTime.Unix()
+				}
+				got = &GzHeader{Name: zr.Name, Comment: zr.Comment, Extra: zr.Extra, ModTime: mt, OS: zr.OS}
+			}
 		case impl == "std" && kind == "zlib":
 			if dict != nil {
 				r, err = stdzlib.NewReaderDict(src, dict)
@@ -278,7 +286,16 @@ func projectLib(impl, kind string, emitted, want, dict []byte) Dec {
 				r = fgflate.NewReader(src)
 			}
 		case impl == "fastgo" && kind == "gzip":
-			r, err = fggzip.NewReader(src)
+			var zr *fggzip.Reader
+			zr, err = fggzip.NewReader(src)
+			if err == nil {
+				r = zr
+				mt := int64(0)
+				if !zr.ModTime.IsZero() {
+					mt = zr.ModTime.Unix()
+				}
+				got = &GzHeader{Name: zr.Name, Comment: zr.Comment, Extra: zr.Extra, ModTime: mt, OS: zr.OS}
+			}
 		case impl == "fastgo" && kind == "zlib":
 			if dict != nil {
 				r, err = fgzlib.NewReaderDict(src, dict)
@@ -291,10 +308,13 @@ func projectLib(impl, kind string, emitted, want, dict []byte) Dec {
 		if err == io.EOF {
 			err = io.ErrUnexpectedEOF // a container header cut short: more input is needed
 		}
-		return Dec{St: classifyReadErr(err), Len: 0, Ok: true}
+		return Dec{St: classifyReadErr(err), Len: 0, Ok: true, Hdr: true}
 	}
 	out, rerr, pan := readAllGuard(r, len(want)+1<<20)
-	d := Dec{St: classifyReadErr(rerr), Len: len(out), Ok: isPrefix(out, want)}
+	d := Dec{St: classifyReadErr(rerr), Len: len(out), Ok: isPrefix(out, want), Hdr: true}
+	if got != nil {
+		d.Hdr = sameHeader(*got, hdr)
+	}
 	if pan != "" {
 		d.St, d.Ok = "corrupt", false
 	}
